@@ -337,7 +337,12 @@ func (x *Exec) callWrites(cc *ssa.CallCommon, seen map[*ssa.Function]bool) (map[
 			out["oracle.price"] = true
 		case iface == "ValidatorStore":
 		default:
-			return out, true
+			// interfaces of other libraries (encoders, writers, keys, messages) do not reach module state;
+			// only keeper-, hook-, router- and handler-like interfaces may write it
+			if strings.HasSuffix(iface, "Keeper") || strings.HasSuffix(iface, "Hook") || strings.HasSuffix(iface, "Hooks") ||
+				strings.HasSuffix(iface, "Router") || strings.HasSuffix(iface, "Handler") || strings.HasSuffix(iface, "Store") {
+				return out, true
+			}
 		}
 		return out, false
 	}
